@@ -1379,3 +1379,17 @@ def _extract_constants(m):
 
 for _i, _m in enumerate(_MODS + [FU]):
     VARIANTS.append(V(f'G-cst-{_i:02d}', 'E', ALL, _m, None, r'\A.*\Z', _extract_constants, flags=re.S, note='numeric literals of keyword arguments / comparisons moved into module-level constants'))
+
+VARIANTS += [
+    V('C06-E31', 'E', ALL, SV, 'Server._enqueue', r'\A.*\Z', lambda m: m.group(0).replace("            while len(pipeline) >= self._capacity:\n", "            backlog_now = len(pipeline)\n            while backlog_now >= self._capacity:\n").replace("                    raise ServerBacklogFull(len(pipeline), perf_counter() - t0)\n\n            pipeline[uid] = fut", "                    raise ServerBacklogFull(len(pipeline), perf_counter() - t0)\n                backlog_now = len(pipeline)\n\n            pipeline[uid] = fut"), note='ledger size copied to a local under the lock and read again after every wait'),
+    V('C06-M31', 'M', ('C06',), SV, 'Server._enqueue', r'\A.*\Z', lambda m: m.group(0).replace("        with self._pipeline_notfull:\n            while len(pipeline) >= self._capacity:\n", "        backlog_now = len(pipeline)\n        with self._pipeline_notfull:\n            while backlog_now >= self._capacity:\n").replace("                    raise ServerBacklogFull(len(pipeline), perf_counter() - t0)\n\n            pipeline[uid] = fut", "                    raise ServerBacklogFull(len(pipeline), perf_counter() - t0)\n                backlog_now = len(pipeline)\n\n            pipeline[uid] = fut"), ('C06-2',), note='seeded C06-f5m1 shape: first read outside the lock'),
+    V('C06-M32', 'M', ('C06',), SV, 'Server._enqueue', r'\A.*\Z', lambda m: m.group(0).replace("            while len(pipeline) >= self._capacity:\n", "            backlog_now = len(pipeline)\n            while backlog_now >= self._capacity:\n"), ('C06-2', 'C06-1'), note='copy never refreshed after the wait'),
+    V('C04-M30', 'M', ('C04',), WK, 'Worker._start_single', r"(\n(\s+))if isinstance\(y, Exception\):\n(.*?)\n\s+else:\n\s+if batched:\n\s+y = y\[0\]\n", r"\1if batched:\1    y = y[0]\1if isinstance(y, Exception):\n\3\n", ('C04-10',), note='seeded C04-f5m1 shape'),
+    V('C07-M30', 'M', ('C07',), SV, 'Server._wait_for_result', r"(\n(\s+))fut\.cancel\(\)\n", r"\1if not fut.cancel():\1    return fut.result()\n", ('C07-3',), note='seeded C07-f5m2 shape'),
+    V('C03-M37', 'M', ('C03',), ST, 'Tailer.__init__', r"(\n(\s+))self\._instream = instream\n", r"\1if isinstance(instream, (list, tuple)):\1    instream = instream[-n:]\1self._instream = instream\n", ('C03-1',), note='seeded C03-f5m2 shape'),
+]
+
+VARIANTS += [
+    V('C04-M31', 'M', ('C04', 'C02'), SV, '_enter_server', r"try:\n\s+qout\.put\(x\)\n\s+except Exception as e:\n(?:\s+#[^\n]*\n)*\s+self\._q_out\.put\(\(x\[0\], RemoteException\(e\)\)\)\n\s+continue\n", "qout.put(x)\n", ('C04-11', 'C02-8'), note='D26 shape: the onboarding thread dies on an input that cannot be pickled'),
+    V('C04-M32', 'M', ('C04',), SV, '_enter_server', r"self\._q_out\.put\(\(x\[0\], RemoteException\(e\)\)\)\n(\s+)continue\n", r"logger.error('%r', e)\n\1continue\n", ('C04-11',), note='the failure is logged but the request is not answered'),
+]
